@@ -242,6 +242,22 @@ def dispatch_targets(P, f, key):
     return out
 
 
+def memoising_decorators(P, f):
+    """decorators of f that keep its result for later calls (functools.lru_cache / cache / cached_property, or anything whose
+    name says cache / memo)"""
+    out = []
+    for d in getattr(f.node, 'decorator_list', []):
+        core = d.func if isinstance(d, ast.Call) else d
+        try:
+            full = P.canon(f.parent or f, core) if f.parent is not None else (P.canon_name_in_module(f.module, core) if hasattr(P, 'canon_name_in_module') else None)
+        except Exception:
+            full = None
+        txt = (full or u(core)).lower()
+        if any(k in txt for k in ('cache', 'memo')):
+            out.append(d)
+    return out
+
+
 def table_key(P, f, k):
     """the value of a table key: a constant, or `<package class>.__name__`; NotImplemented otherwise"""
     key = const_value(k)
